@@ -303,6 +303,8 @@ def evalSlice : Nat → Node → Option Node → Option Node → Option Node →
     | none => runErr (Node.start obj) "slice-obj-type"
     | some none => panicE "slice obj type assertion"
     | some (some len) =>
+      -- a sequence of 2^62 or more elements cannot exist in memory: outside the model (like fuel)
+      if (len : Int) ≥ 4611686018427387904 then outOfFuel else
       -- a bound whose *value* is nil counts as omitted (`if step != nil`)
       let bound (x : Option TV) (e : Option Node) (what : String) : EM (Option Int) :=
         match x with
@@ -537,7 +539,12 @@ def builtin : Nat → Fn → Bytes → List Node → Pos → Nat → EM Unit
             | _, _ => do
               let a ← ask env (B "cast:" ++ B t.name ++ [58] ++ renderV s.world.heap v.v)
               match unrender 8 [] (unhex (splitAnswer a).2) with
-              | some (r, _, _) => setPt key ⟨r, t⟩
+              | some (r, _, _) =>
+                -- the conversion engine answers with a value of the requested type
+                let typed := match t, r with
+                  | .str, .str _ | .int, .int _ | .float, .float _ | .bool, .bool _ => true
+                  | _, _ => false
+                if typed then setPt key ⟨r, t⟩ else needE (B "unmodelled:cast-answer-type")
               | none => needE (B "unmodelled:cast-answer")
       | [_, a1] => runErr (Node.start a1) "cast-type-arg"
       | _ => runErr np "argc"
